@@ -529,7 +529,7 @@ def load_known():
 
 
 def run_check(prop, harnesses, level_text="", tier=None, seed=None, budget_s=None,
-              assumptions=(), outside=(), stubs=()):
+              assumptions=(), outside=(), stubs=(), write_evidence=True):
     tier = tier or os.environ.get("VERIF_TIER", "quick")
     if tier not in ("quick", "thorough"):
         tier = "quick"
@@ -645,9 +645,10 @@ def run_check(prop, harnesses, level_text="", tier=None, seed=None, budget_s=Non
     ev = evidence(prop, tier, seed, results, validated + n_sample_ok, ss, wall, verdict,
                   known_seen, new_violations, harness_errors, level_text, assumptions, outside,
                   stubs, missing_goals)
-    os.makedirs(os.path.join(VERIF, "evidence"), exist_ok=True)
-    with open(os.path.join(VERIF, "evidence", f"{prop}.json"), "w") as fh:
-        json.dump(ev, fh, indent=1, default=str)
+    if write_evidence:
+        os.makedirs(os.path.join(VERIF, "evidence"), exist_ok=True)
+        with open(os.path.join(VERIF, "evidence", f"{prop}.json"), "w") as fh:
+            json.dump(ev, fh, indent=1, default=str)
     names = {HELD: "HELD", VIOLATION: "VIOLATION", INCONCLUSIVE: "INCONCLUSIVE",
              HARNESS_ERROR: "HARNESS-ERROR"}
     print(f"[{prop}] verdict={names[verdict]} tier={tier} paths={sum(r.paths for r in results)} "
